@@ -17,6 +17,9 @@ Start == /\ pc = "gen" /\ pool = {} /\ pc' = "filter" /\ UNCHANGED <<rows, filte
 Next == Place \/ Start \/ (CmapNext /\ UNCHANGED pool)
 Inv_C17 == pc = "done" => C17_Read_Failed(rows, filter, maps) = {}
 Inv_NoAbort == status # "aborted"
+\* trimming every map read (the model's trim is Geometry!TrimXs / TrimLen)
+TrimOf(m) == [len |-> (TrimLen(m.x) - 1) + 10, x |-> TrimXs(m.x)]
+Inv_Trim == pc = "done" => \A j \in 1..Len(maps) : C17_Trim_Failed(maps[j], TrimOf(maps[j]), TrimOf(TrimOf(maps[j]))) = {}
 ExportInv == pc = "filter" => PrintT("X" \o ToJson([rows |-> rows, filter |-> filter]))
 ExportStop == pc \in {"gen", "filter"}
 =============================================================================
